@@ -108,6 +108,19 @@ def rebuild(f, kids):
     return f
 
 
+def _effectful_unquotes(t, level):
+    if is_lit(t):
+        return 0
+    k = t[0]
+    if k == "unq":
+        if level == 0:
+            return 0 if (is_lit(t[1]) or t[1][0] == "var") else 1
+        return _effectful_unquotes(t[1], level - 1)
+    if k == "quote":
+        return _effectful_unquotes(t[1], level + 1)
+    return sum(_effectful_unquotes(c, level) for c in children(t))
+
+
 def wellformed(case):
     """structural check; raises Invalid.  Also enforces the static rules of the domain:
     defn only where it defines a module global in every phase (ancestors: do / staging forms / quote),
@@ -182,6 +195,10 @@ def wellformed(case):
                 raise Invalid("quote")
             if qlevel >= 2:
                 raise Invalid("quote nesting")
+            if _effectful_unquotes(f[1], 0) > 1:
+                # docs/semantics.rst: "the evaluation order of the child models of a Sequence is unspecified"; the unquoted forms of one
+                # quasiquote become arguments of model constructors, so two of them with effects have no prescribed relative order
+                raise Invalid("more than one effectful unquote in one quasiquote")
             walk(f[1], chain_ok, qlevel + 1, sdepth, depth + 1)
         elif k == "unq":
             if len(f) != 2 or qlevel < 1:
@@ -572,6 +589,7 @@ def program(max_top=5, size=26):
                 self.vars, self.chain, self.top, self.depth = vars, chain, top, depth
                 self.flimit = flimit  # only the first flimit functions may be called (code that runs before the enclosing template is compiled)
                 self.qmark = qmark  # number of functions defined before the innermost enclosing quote
+                self.qbox = None  # shared by all positions of one template: {"used": an effectful unquote has been placed}
                 self.mac_outer = mac_outer  # (vars, chain, top) at the innermost enclosing do-mac's position
                 self.quote_inner = quote_inner  # (vars, chain) at the innermost enclosing quote's position
                 self.qlevel = qlevel
@@ -580,7 +598,9 @@ def program(max_top=5, size=26):
                 d = dict(vars=self.vars, chain=self.chain, top=False, depth=self.depth + 1, mac_outer=self.mac_outer, quote_inner=self.quote_inner, qlevel=self.qlevel,
                          flimit=self.flimit, qmark=self.qmark)
                 d.update(kw)
-                return Cx(**d)
+                c = Cx(**d)
+                c.qbox = self.qbox
+                return c
 
         def value(cx):
             """a form in value position"""
@@ -604,6 +624,7 @@ def program(max_top=5, size=26):
             otop = otop and allow_top
             tcx = Cx(list(ovars), ochain, otop, cx.depth + 1, mac_outer=cx.mac_outer, quote_inner=(cx.vars, cx.chain), qlevel=cx.qlevel + 1,
                      flimit=cx.flimit, qmark=len(funcs))
+            tcx.qbox = dict(used=False)
             return ["quote", form(tcx, want_value=not otop)]
 
         def form(cx, want_value=False):
@@ -693,8 +714,13 @@ def program(max_top=5, size=26):
                 return ["mac", pre + [["if", value(inner), quote_tmpl(inner.sub(), allow_top=False), quote_tmpl(inner.sub(), allow_top=False)]]]
             if k == "unq":
                 qv, qc = cx.quote_inner
+                if cx.qbox["used"]:
+                    # a second unquote of the same quasiquote must be free of effects (order among unquotes is unspecified)
+                    return ["unq", ["var", draw(st.sampled_from(qv))] if qv else draw(st.sampled_from([0, 2, None]))]
+                cx.qbox["used"] = True
                 lim = cx.qmark if cx.flimit is None else min(cx.flimit, cx.qmark)
                 ucx = Cx(list(qv), qc, False, cx.depth + 1, mac_outer=cx.mac_outer, quote_inner=None, qlevel=cx.qlevel - 1, flimit=lim, qmark=cx.qmark)
+                state["budget"] = max(state["budget"], 4)  # leave room for a staging form inside the unquote
                 return ["unq", form(ucx, want_value=True)]
             raise AssertionError(k)
 
